@@ -910,7 +910,7 @@ pub fn witness(prog: &Program, choices: &[(u16, u16)]) -> String {
     format!("schedx|{}|{}", prog.text(), choices.iter().map(|c| format!("{}/{}", c.0, c.1)).collect::<Vec<_>>().join(","))
 }
 
-pub fn explore(prog: &Program, bound: u32, max_schedules: u64, deadline: Instant) -> ProgResult {
+pub fn explore(prog: &Program, bound: u32, max_schedules: u64, deadline: Instant, journal: &crate::seqx::Journal) -> ProgResult {
     let hasher = make_hasher(prog.cfg.hash);
     let mut res = ProgResult { schedules: 0, max_points: 0, outcomes: 0, violations: vec![], viol_total: 0, capped: false, machinery: None };
     let mut outcomes: HashSet<u64> = HashSet::new();
@@ -918,6 +918,7 @@ pub fn explore(prog: &Program, bound: u32, max_schedules: u64, deadline: Instant
     let prune = crate::seqx::Prune::from_env();
     let max_events = 6000 + prog.threads.iter().flatten().map(|o| if let TOp::Burst(n, _) = o { *n as u64 * 40 } else { 0 }).sum::<u64>();
     // determinism: the first schedule twice
+    journal.write(&witness(prog, &[]));
     let a = run_once(prog, &hasher, &[], max_events);
     let b = run_once(prog, &hasher, &[], max_events);
     if a.trace != b.trace || a.outcome != b.outcome {
@@ -930,6 +931,8 @@ pub fn explore(prog: &Program, bound: u32, max_schedules: u64, deadline: Instant
             res.capped = true;
             break;
         }
+        // crash journal: if the process dies in this execution, this is the witness
+        journal.write(&witness(prog, &prefix));
         let x = run_once(prog, &hasher, &prefix, max_events);
         res.schedules += 1;
         if let Some(Abort::Divergence(m)) = &x.abort {
@@ -1268,12 +1271,13 @@ pub fn run_family(name: &str, tier: &str, bound: u32, part: usize, parts: usize,
     let progs = family(name, tier);
     let mut res = FamilyResult { family: name.into(), part: format!("{part}/{parts}"), bound, programs: 0, schedules: 0, max_points: 0, outcomes: 0, capped: false, violations: vec![], viol_total: 0, samples: vec![], wall_s: 0.0 };
     let mut sigs: HashSet<(String, String)> = HashSet::new();
+    let journal = crate::seqx::Journal::open(&std::env::var("MMVERIF_JOURNAL").ok());
     for (i, p) in progs.iter().enumerate() {
         if i % parts != part {
             continue;
         }
         // a Burst makes executions long: explore them with the bound only, fewer schedules
-        let r = explore(p, bound, max_schedules_per_program, deadline);
+        let r = explore(p, bound, max_schedules_per_program, deadline, &journal);
         if let Some(m) = r.machinery {
             return Err(m);
         }
@@ -1293,6 +1297,7 @@ pub fn run_family(name: &str, tier: &str, bound: u32, part: usize, parts: usize,
         }
     }
     res.wall_s = t0.elapsed().as_secs_f64();
+    journal.write("done");
     Ok(res)
 }
 
